@@ -855,6 +855,13 @@ impl LocalDestination {
             .parent()
             .ok_or_else(|| LocalDestinationErrorKind::FileDoesNotHaveParent(filename.clone()))?;
         fs::create_dir_all(dir).map_err(LocalDestinationErrorKind::DirectoryCreationFailed)?;
+        // An existing file (e.g. from a former restore) has to make way for the link.
+        if source_path != filename
+            && fs::symlink_metadata(&source_path).is_ok_and(|meta| meta.is_file())
+            && fs::symlink_metadata(&filename).is_ok_and(|meta| !meta.is_dir())
+        {
+            fs::remove_file(&filename).map_err(LocalDestinationErrorKind::FileRemovalFailed)?;
+        }
         fs::hard_link(&source_path, &filename).map_err(|err| {
             LocalDestinationErrorKind::HardLinkingFailed {
                 source_path,
